@@ -23,3 +23,6 @@ import Tv.Thm.C08Gen
 #print axioms Tv.C08Gen.fold_complete
 #print axioms Tv.C08Gen.vcov_nulls
 #print axioms Tv.C08Gen.vcorr_nulls
+#print axioms Tv.C08Gen.count_valid_nulls
+#print axioms Tv.C08Gen.vquantile_nulls
+#print axioms Tv.C08Gen.vmedian_nulls
